@@ -466,6 +466,15 @@ class Ctx:
 
     def do_prove(self, modules=None):
         self.proof = prove(self.prop, modules)
+        if self.requested_tier == "thorough" and self.proof["build_ok"] and not os.environ.get("VERIF_NO_LEANCHECKER"):
+            # thorough tier: the compiled theorem files are replayed by leanchecker, the toolchain's independent re-checker
+            try:
+                ok, lg = leanchecker(self.proof["modules"])
+                self.extra["leanchecker"] = {"modules": self.proof["modules"], "result": "ok" if ok else lg[-400:]}
+                if not ok:
+                    self.proof["broken"].append({"theorem": "*", "reason": "leanchecker: " + lg[-300:]})
+            except subprocess.TimeoutExpired:
+                self.extra["leanchecker"] = {"modules": self.proof["modules"], "result": "timeout (not counted)"}
         return self.proof
 
     @property
